@@ -331,7 +331,7 @@ int main(int argc, char ** argv) {
             }
             std::size_t tid = c["tid"].get<std::size_t>();
             std::string bytes = dump_of(tid, layers);
-            json loaded; int rc = try_load(tid, bytes, 0, &loaded);
+            json loaded = json::array(); int rc = try_load(tid, bytes, 0, &loaded);   // (stays [] when the load throws: TLC cannot read null)
             out << json({{"e", "dump"}, {"tid", tid}, {"limbs", to_limbs(bytes.data(), bytes.size())}, {"odd", bytes.size() % 2}, {"layers", layers},
                          {"reload_rc", rc}, {"reloaded", loaded}}).dump() << "\n";
             ++g_cases;
